@@ -56,6 +56,33 @@ func checkC05(r *Run) {
 			licensed[f.Obj] = true
 		}
 	}
+	// an operand wrapper ("evaluate; an unknown identifier is nil") carries the licence of its callers:
+	// it is licensed when every call site is in the prefix or if/else-if evaluators, whose tolerance is unconditional
+	uncond := map[*types.Func]bool{}
+	for _, n := range []string{"PrefixExpression", "IfExpression"} {
+		for _, f := range w.evalMethods(n) {
+			uncond[f.Obj] = true
+		}
+	}
+	for wr, tol := range w.operandWrappers() {
+		if !tol {
+			continue
+		}
+		nSites, okSites := 0, true
+		for _, f := range w.Funcs("") {
+			for _, c := range callsIn(f.Decl.Body, false) {
+				if calleeOf(f.Pkg.TypesInfo, c) == wr {
+					nSites++
+					if !uncond[f.Obj] {
+						okSites = false
+					}
+				}
+			}
+		}
+		if nSites > 0 && okSites {
+			licensed[wr] = true
+		}
+	}
 	tolerated := map[string]bool{}
 	for _, rel := range c05Scope {
 		for _, f := range w.Funcs(rel) {
@@ -78,7 +105,7 @@ func checkC05(r *Run) {
 	if len(tolerated) == 0 {
 		r.Lost("R2", "typed unknown-identifier tolerance in the licensed evaluators")
 	}
-	toleranceOperatorSet(r)
+	toleranceOperatorSetSSA(r)
 	wrapVerbRule(r)
 	reflectResultRule(r)
 }
